@@ -530,18 +530,15 @@ def lazyScanLoop (cfg : Cfg) (fuel ef : Nat) (env : Env) (arms : List (String ×
     match Strict.scanBest ms with
     | none => pure ()
     | some (m, k) =>
-      match hk : arms[k]? with
-      | none => panicAt "scan:arm index"
-      | some (re, body, _) =>
+      if hk : (arms[k]?).isSome then
         if hm : 0 < m.stop then do
-          have : sizeOf body < sizeOf arms := by
-            have h1 := List.sizeOf_lt_of_mem (List.mem_of_getElem? hk)
-            simp at h1; omega
+          have : sizeOf (Strict.armBody arms k) < sizeOf arms := Strict.armBody_lt arms k hk
           pushFrameL
-          lazyBlock cfg fuel ef { env with caps := Strict.capsOf m } (.scanArm re) body
+          lazyBlock cfg fuel ef { env with caps := Strict.capsOf m } (.scanArm (Strict.armRegex arms k)) (Strict.armBody arms k)
           popFrameL
           lazyScanLoop cfg fuel ef env arms subject (i + m.stop)
         else throwK .emptyRegexCapture
+      else panicAt "scan:arm index"
   else pure ()
 termination_by (fuel, sizeOf arms, subject.utf8ByteSize - i + 1)
 
@@ -561,15 +558,19 @@ def execMatchL (cfg : Cfg) (fuel ef : Nat) (st : Stanza) (m : QMatch) : LM Unit 
                              srcLoc := { row := tn.startRow, col := tn.startCol }, nodeKind := tn.kind }
       lazyBlock cfg fuel ef { env0 with ctx := ctx } .top st.stmts
 
-/-- the merged-query driver (lazy.rs:75-92, 114-131): `pattern_index` selects the stanza -/
+/-- one match of the merged query (lazy.rs:75-92, 126-128): `pattern_index` selects the stanza, a poll, the block -/
+def lazyBlockOf (cfg : Cfg) (fuel ef : Nat) (stanzas : List Stanza) (m : QMatch) : LM Unit :=
+  match stanzas[m.patternIx]? with
+  | none => panicAt "stanza index"
+  | some st => do
+    pollP "processing matches"
+    execMatchL cfg fuel ef st m
+
+/-- the merged-query driver (lazy.rs:114-131) -/
 def execMergedL (cfg : Cfg) (fuel ef : Nat) (stanzas : List Stanza) : List QMatch → LM Unit
   | [] => pure ()
   | m :: rest => do
-    match stanzas[m.patternIx]? with
-    | none => panicAt "stanza index"
-    | some st => do
-      pollP "processing matches"
-      execMatchL cfg fuel ef st m
+    lazyBlockOf cfg fuel ef stanzas m
     execMergedL cfg fuel ef stanzas rest
 
 /-! ### evaluate phase (lazy/statements.rs) -/
